@@ -1,4 +1,134 @@
+/-
+  C12 — after update, compare reports the rule as unchanged, and vice versa.
+
+  Model: `Crs.Update.updateRegex`, `readCurrentRegex`, `compareRegex`.
+-/
 import Crs.Update
+import CrsProofs.Update
+import CrsProps.C11
 namespace Crs.Props
-theorem C12_placeholder : True := trivial
+open Crs Crs.Update
+
+/-- the rewritten operand line is classified like the old one by the two line tests of the lookup
+    (`id:R` and `SecRule`): true in CRS layout, where neither occurs inside an operand -/
+def KeepsClass (id oldLine newLine : Bytes) : Prop :=
+  contains (b!"id:" ++ id) newLine = contains (b!"id:" ++ id) oldLine ∧
+  contains secRule newLine = contains secRule oldLine
+
+/-- **C12 (round trip).** After a successful update with a one-line regex `r`, reading the operand of the
+    same rule gives `r` back byte for byte — whatever `r` contains (quotes, `"@rx `, `" \`) — provided
+    the rewritten line is still classified like before (`KeepsClass`). -/
+theorem C12_roundtrip (c id : Bytes) (k : Nat) (r c' : Bytes) (h : updateRegex c id k r = .ok c') (hr : '\n' ∉ r)
+    (hk : ∀ (i : Nat) (pre old post : Bytes), (splitNl c)[i]? = some (pre ++ old ++ post) → KeepsClass id (pre ++ old ++ post) (pre ++ r ++ post)) :
+    readCurrentRegex c' id k = .ok r := by
+  -- unfold the update
+  have h0 := h
+  unfold updateRegex at h
+  simp only at h
+  split at h
+  · simp at h
+  · rename_i i hi
+    split at h
+    · simp at h
+    · rename_i line hline
+      split at h
+      · simp at h
+      · rename_i pre old post hop
+        simp only [Except.ok.injEq] at h
+        obtain ⟨hl, _, _⟩ := splitOperand_shape line pre old post hop
+        have hline' : (splitNl c)[i]? = some (pre ++ old ++ post) := by rw [hline, hl]
+        obtain ⟨i', pre', old', post', hi', hsplit, _⟩ := C11_lines c id k r c' h0 hr
+        -- the lines of the new file
+        have hlines : splitNl c' = setAt (splitNl c) i (pre ++ r ++ post) := by
+          rw [← h]
+          have hmem : (pre ++ old ++ post) ∈ splitNl c := List.mem_of_getElem? hline'
+          have hno := splitNl_lines_noNl c _ hmem
+          apply splitNl_joinNl
+          · intro e
+            have := setAt_length (splitNl c) i (pre ++ r ++ post)
+            rw [e] at this
+            exact splitNl_ne_nil c (List.length_eq_zero_iff.mp this.symm)
+          · intro l hl'
+            rcases setAt_mem _ _ _ _ hl' with rfl | hl'
+            · intro hm
+              simp only [List.mem_append] at hm hno
+              rcases hm with (hm | hm) | hm
+              · exact hno (Or.inl (Or.inl hm))
+              · exact hr hm
+              · exact hno (Or.inr hm)
+            · exact splitNl_lines_noNl c l hl'
+        obtain ⟨hk1, hk2⟩ := hk i pre old post hline'
+        unfold readCurrentRegex
+        simp only
+        rw [hlines, targetIndex_setAt id k 0 (splitNl c) i _ _ hline' hk1 hk2, hi]
+        simp only
+        have hlt : i < (splitNl c).length := by
+          have := List.getElem?_eq_some_iff.mp hline'
+          exact this.1
+        rw [setAt_getElem?_same _ _ _ hlt]
+        simp only
+        rw [splitOperand_rebuild line pre old post r hop]
+
+/-- **C12 (second update is a no-op).** -/
+theorem C12_second_update_noop (c id : Bytes) (k : Nat) (r c' : Bytes) (h : updateRegex c id k r = .ok c') (hr : '\n' ∉ r)
+    (hk : ∀ (i : Nat) (pre old post : Bytes), (splitNl c)[i]? = some (pre ++ old ++ post) → KeepsClass id (pre ++ old ++ post) (pre ++ r ++ post)) :
+    updateRegex c' id k r = .ok c' := by
+  have h0 := h
+  unfold updateRegex at h
+  simp only at h
+  split at h
+  · simp at h
+  · rename_i i hi
+    split at h
+    · simp at h
+    · rename_i line hline
+      split at h
+      · simp at h
+      · rename_i pre old post hop
+        simp only [Except.ok.injEq] at h
+        obtain ⟨hl, _, _⟩ := splitOperand_shape line pre old post hop
+        have hline' : (splitNl c)[i]? = some (pre ++ old ++ post) := by rw [hline, hl]
+        have hlines : splitNl c' = setAt (splitNl c) i (pre ++ r ++ post) := by
+          rw [← h]
+          have hmem : (pre ++ old ++ post) ∈ splitNl c := List.mem_of_getElem? hline'
+          have hno := splitNl_lines_noNl c _ hmem
+          apply splitNl_joinNl
+          · intro e
+            have := setAt_length (splitNl c) i (pre ++ r ++ post)
+            rw [e] at this
+            exact splitNl_ne_nil c (List.length_eq_zero_iff.mp this.symm)
+          · intro l hl'
+            rcases setAt_mem _ _ _ _ hl' with rfl | hl'
+            · intro hm
+              simp only [List.mem_append] at hm hno
+              rcases hm with (hm | hm) | hm
+              · exact hno (Or.inl (Or.inl hm))
+              · exact hr hm
+              · exact hno (Or.inr hm)
+            · exact splitNl_lines_noNl c l hl'
+        obtain ⟨hk1, hk2⟩ := hk i pre old post hline'
+        have hlt : i < (splitNl c).length := (List.getElem?_eq_some_iff.mp hline').1
+        unfold updateRegex
+        simp only
+        rw [hlines, targetIndex_setAt id k 0 (splitNl c) i _ _ hline' hk1 hk2, hi]
+        simp only
+        rw [setAt_getElem?_same _ _ _ hlt]
+        simp only
+        rw [splitOperand_rebuild line pre old post r hop]
+        simp only
+        -- replacing line i twice by the same text
+        have := setAt_setAt (splitNl c) i (pre ++ r ++ post)
+        rw [this, ← h]
+
+/-- **C12 (compare).** The verdict is byte equality of the stored operand and the generated regex: "unchanged"
+    exactly when they are equal; one differing byte gives "changed". -/
+theorem C12_compare_iff (generated current : Bytes) : compareRegex generated current = true ↔ current = generated := by
+  simp [compareRegex]
+
+/-- update followed by compare: the rule is reported as unchanged -/
+theorem C12_update_then_compare (c id : Bytes) (k : Nat) (r c' : Bytes) (h : updateRegex c id k r = .ok c') (hr : '\n' ∉ r)
+    (hk : ∀ (i : Nat) (pre old post : Bytes), (splitNl c)[i]? = some (pre ++ old ++ post) → KeepsClass id (pre ++ old ++ post) (pre ++ r ++ post)) :
+    ∃ cur, readCurrentRegex c' id k = .ok cur ∧ compareRegex r cur = true :=
+  ⟨r, C12_roundtrip c id k r c' h hr hk, by simp [compareRegex]⟩
+
 end Crs.Props
